@@ -207,6 +207,57 @@ def make_wide_instance(rng, k, nind=1, trios=(), quals=(10, 20, 30, 0, 10, 20), 
             "recomb": [rng.choice((0, 10, 20, 30)) for _ in range(ncols)]}
 
 
+def make_threegen_instance(rng, sibling=False, order="top-down"):
+    """three generations: grandparents 0,1 -> parent 2; parent 2 and the married-in parent 3 -> child 4 (and sibling 5).
+    `order` is the order in which the relationships are registered (add_relationship): top-down, bottom-up or mixed.
+    One or two reads over two columns (one of them of a grandchild, one of a grandparent), decimal numbers."""
+    nind = 6 if sibling else 5
+    lower = (2, 3) if rng.random() < 0.5 else (3, 2)          # the middle parent is father or mother
+    trios = [(0, 1, 2), lower + (4,)] + ([lower + (5,)] if sibling else [])
+    if order == "bottom-up":
+        trios = trios[::-1]
+    elif order == "mixed":
+        trios = [trios[1], trios[0]] + trios[2:] if not sibling else [trios[2], trios[0], trios[1]]
+    quals = [10, 20, 30]
+    who = [rng.choice([4, 5] if sibling else [4]), rng.choice([0, 1])]
+    if rng.random() < 0.4:
+        who = who[:1]
+    reads = [{"sample": s, "vars": [[0, rng.randint(0, 1), rng.choice(quals)], [1, rng.randint(0, 1), rng.choice(quals)]]}
+             for s in who]
+    pm = rng.choice(["uniform", "dyadic"])
+    priors = []
+    for _ in range(nind):
+        row = []
+        for _ in range(2):
+            if pm == "uniform":
+                row.append([0.25, 0.5, 0.25])
+            else:
+                a = rng.randint(1, 14)
+                b = rng.randint(1, 15 - a)
+                row.append([a / 16.0, b / 16.0, (16 - a - b) / 16.0])
+        priors.append(row)
+    return {"ncols": 2, "nind": nind, "trios": [list(t) for t in trios], "reads": reads, "priors": priors,
+            "recomb": [rng.choice((10, 20, 30)) for _ in range(2)]}
+
+
+def pedigree_shape(inst):
+    """'single' | 'trio' | 'quartet' | '3gen[+sib]:<registration order>' (order: is every trio registered after the
+    trio in which one of its parents is the child? top-down; before? bottom-up; else mixed)"""
+    tr = [tuple(t) for t in inst["trios"]]
+    if not tr:
+        return "single" if inst["nind"] == 1 else "unrelated"
+    child_pos = {c: k for k, (_, _, c) in enumerate(tr)}
+    rel = []
+    for k, (f, m, c) in enumerate(tr):
+        for p in (f, m):
+            if p in child_pos:
+                rel.append("down" if child_pos[p] < k else "up")
+    if not rel:
+        return "trio" if len(tr) == 1 else "quartet"
+    order = "top-down" if all(r == "down" for r in rel) else ("bottom-up" if all(r == "up" for r in rel) else "mixed")
+    return ("3gen+sib:" if len(tr) > 2 else "3gen:") + order
+
+
 def gap_before_cover(inst):
     """largest coverage of a column in which some active read has a BLANK entry and a later read (in read order)
     covers the column (0 if there is no such column)"""
@@ -269,6 +320,7 @@ def shape_tallies(inst):
         t["positions=None"] = 1
     if not inst["reads"]:
         t["empty-readset"] = 1
+    t["pedigree=" + pedigree_shape(inst)] = 1
     gb = gap_before_cover(inst)
     if gb:
         t["gap-then-covering-read@cov=%d" % gb] = 1
